@@ -28,4 +28,9 @@ CHECKS = {
                      'and infinite variants reproduce f at r_0, and the infinite variants converge to g as r -> infinity (Coquelicot is_lim) '
                      'for every order k > 0 and bounded network; the same per column for the coefficient-space variants; terms regenerated '
                      'from conditions.py'),
+    'C10': dict(engine=ENGINE_A, technique=TECH_A, note=NOTE_A + '; per-row parameter columns modelled as leaves (broadcasting modelled)', ref='DESIGN.md section 7 C10',
+                text='list-generic Coq model of _get_parameter and both bundle parameterize bodies with theorems for every lookup table '
+                     '(any names, indices, number of columns): the row satisfies value/derivative/two-point constraints with its own '
+                     'parameters; the model is proved equal (expr_eqb inside the kernel) to the term regenerated from conditions.py for '
+                     'each of the 94 + 209 lookup tables of the quantifier'),
 }
